@@ -65,6 +65,8 @@ def expectedNested : List (String × String × String × List String) := [
   ("memfs", "MemFS.Remove", "child#mu", ["parent#mu:w"]),
   -- RemoveAll returns before locking when child == parent (the root of the view); otherwise child is an entry of parent
   ("memfs", "MemFS.RemoveAll", "child#mu", ["parent#mu:w"]),
+  -- the helper of RemoveAll reads the owner of an entry (sticky bit): an entry of a directory is never that directory
+  ("memfs", "MemFS.removeAll", "child#mu", ["parent#mu:w"]),
   -- guarded by `if nParent != oParent`
   ("memfs", "MemFS.Rename", "nParent#mu", ["oParent#mu:w"]),
   -- the closure reading the owner of an entry (sticky bit) answers for the two parents without locking them again
